@@ -77,8 +77,8 @@ def table : List (Nat × SiteClass × String) := [
   (1793280697, .width 131072 49,     "valve get_server_rules: count is a u16; hashbrown rounds 65535·8/7 up to 131072 slots of 48+1 bytes"),
   (1240062858, .width 255 32,        "valve receive: total is a u8, one Vec<u8> header (24 bytes) per further fragment"),
   (3037386628, .stream,              "socket.rs TCP receive: read_to_end of what the peer sends"),
-  (2677017770, .param 6144 1,        "socket.rs TCP receive: initial capacity, callers pass None (1024) or a constant ≤ 6144"),
-  (4262317043, .param 6144 1,        "socket.rs UDP receive: buffer, callers pass None (1024) or a constant ≤ 6144")]
+  (2677017770, .param 65535 1,       "socket.rs TCP receive: initial capacity, callers pass None (1024) or a constant ≤ 65535 (C13_consts_receive_sizes)"),
+  (4262317043, .param 65535 1,       "socket.rs UDP receive: buffer, callers pass None (1024) or a constant ≤ 65535 (C13_consts_receive_sizes)")]
 
 def classOf (id : Nat) : Option SiteClass := (table.find? (fun e => e.1 == id)).map (fun e => e.2.1)
 
